@@ -193,7 +193,8 @@ F_C06_step(cfg, pre, post) ==
 (* C07 type I blocking *)
 
 Dom_C07(cfg) == ~HasPreemptiveSchedule(cfg) /\ ~HasPriorityPreempt(cfg)
-                 /\ \A n \in DOMAIN cfg.nodes : cfg.nodes[n].kind \in {"std", "sched"}
+                 /\ \A n \in DOMAIN cfg.nodes : (cfg.nodes[n].kind \in {"std", "sched"}
+                                                 \/ (cfg.nodes[n].kind = "slot" /\ cfg.nodes[n].slot.pre = 0))
 
 \* the release or block step that decides the fate of the customer picked by the finish at index a
 FinishDecision(S, a) ==
